@@ -16,6 +16,12 @@ EXTENDS Naturals, Sequences, FiniteSets, TLC, IOUtils
 (* environment of TLC.                                                         *)
 HasStage2 == ("C20_STAGE2" \in DOMAIN IOEnv) /\ (IOEnv.C20_STAGE2 = "1")
 
+(* binaries whose map.c hash function is substituted (H11 hook, $CPROC_VERIF_HASH): *)
+(* the whole compiler must produce the same bytes under any hash function -- the   *)
+(* end-to-end counterpart of MapPure.tla's Inv_Lookup.  Part of the covering sets, *)
+(* not of the full product.                                                      *)
+HashBins == ("C20_HASHBINS" \in DOMAIN IOEnv) /\ (IOEnv.C20_HASHBINS = "1")
+
 Dim(n, vs) == [name |-> n, vals |-> vs]
 
 DimSpec == <<
@@ -33,7 +39,8 @@ DimSpec == <<
   Dim("stack",   <<"keep", "unlimited">>),                           \* ulimit -s
   Dim("fds",     <<"std", "extra">>),                                \* additional open descriptors
   Dim("tool",    <<"native">>),
-  Dim("bin",     IF HasStage2 THEN <<"ref", "stage2">> ELSE <<"ref">>)
+  Dim("bin",     (IF HasStage2 THEN <<"ref", "stage2">> ELSE <<"ref">>) \o
+                 (IF HashBins THEN <<"hash_xor", "hash_const", "hash_low2">> ELSE << >>))
 >>
 
 (* the small lattice run under valgrind memcheck (slow: not part of the product) *)
